@@ -38,6 +38,18 @@ CHECKS = {
  "C17": ("e2", "arbitrary derivation trees (chains, branches, re-merges via +/extend, copy/deepcopy cuts) with editing methods and callback faults; after every step every live item is compared with its reference twin (no write nobody asked for), deepcopy results must share no mutable object with any live item, and obsolescence flags plus the exactly-once warning on next use are checked against a derivation-graph model",
          "dunder-level access may or may not warn; links that hand on no item (clear/aggregate/map) are 'weak' (either state accepted); after an injected callback fault the receiver's/ancestors' obsolescence is unconstrained",
          "deterministic simulation: seeded op histories + callback fault injection vs reference heap/derivation model", "DESIGN.md 5/C17"),
+ "C08": ("e4", "worlds of 1..3 real interpreter lifetimes sharing one NUMBA_CACHE_DIR; the seed decides which accelerated kernel/signature is first used when, with which others in the same aggregate() call, under which cache setting, and which cache fault (wipe, rollback, prune, truncate .nbc/.nbi) or kill point inside numba's cache save (before index, between index and data, after data, torn temp file) happens; every accelerated call is compared with the pure-Python path of the same process (values rtol 1e-9, missing positions, result dtype); ordered first-use pair coverage is measured",
+         "domain = helper x dtype combinations both paths accept; under an injected cache fault the accelerated call may raise or recompile but never return different data; a lifetime in which dataiter disabled Numba at import is skipped",
+         "deterministic simulation: seeded process-lifetime schedules over a shared JIT cache with crash/cache-loss fault injection, differential oracle vs Python path", "DESIGN.md 5/C08"),
+ "C12": ("e3", "seeded storage histories (writes to fresh/nested/overwritten paths, reads, truncations) over all formats x suffixes x sep/header/encoding options inside a stated representable domain, with disk-full at byte k (RLIMIT_FSIZE; reaches pyarrow/NumPy native writers) and stream errors at the n-th write/read through the xopen seam; oracle: an acknowledged write reads back equal (names, order, values, missing positions, dtypes for binary formats) immediately and at any later point of the history, compressed suffixes carry the compressor's magic",
+         "a write that raised promises nothing about its path; torn-file reads are not judged; documents stay inside the representable domain listed in the evidence",
+         "deterministic simulation: seeded write/read/overwrite histories with disk-full and stream-error injection vs reference document model", "DESIGN.md 5/C12"),
+ "C14": ("e3", "on every file the storage history has produced (incl. torn ones) the module-level alias is compared with the class method for seeded keyword combinations (same value or same exception type), and restricted/typed reads are compared with read-everything-then-select-and-cast for seeded subsets and orderings of columns/keys",
+         "restricted == full-then-select is compared as a name->column mapping and only on intact files; casts limited to int->float/object, id->float/str for ListOfDicts",
+         "deterministic simulation: seeded storage histories, route-equivalence oracle over intact and torn files", "DESIGN.md 5/C14"),
+ "C18": ("e3", "feature collections (heterogeneous property sets, 7 geometry types + null, extra top-level members incl. names needing escaping, indent, encodings, suffixes) are written by an independent writer (json.dump), read with GeoJSON.read, compared with the model, written with GeoJSON.write under disk-full / stream-error faults, loaded with the stdlib and re-read; ack => valid JSON with the same features in order and an equal re-read",
+         "property values homogeneous per key; 'properties': null, a property named 'geometry' and NaN/inf are outside the domain",
+         "deterministic simulation: seeded GeoJSON round trips with I/O fault injection, independent stdlib writer/reader as oracle", "DESIGN.md 5/C18"),
 }
 
 
